@@ -5,9 +5,12 @@ from props.common import *
 import props.reclcommon as rc
 from props.reclcommon import client_program, K_of
 
-LEVEL = 'exploration'
+PROPERTY_FILES = ['Properties_C01_ebr', 'Properties_C01_hp']
+THEOREM_NOTES = {
+    'scope': 'the theorems are about a step-level model of epoch_based<> (generic_epoch_based with its default traits: critical-region entry/exit, global epoch update scanning the thread block list, three retire lists, orphan hand-over at thread exit and adoption, guard_ptr acquire/reset/reclaim) driven by the generic client of harness/h_recl.cpp, for any number of threads, cells, guard slots, programs and schedules: a guarded node is never freed and no dereference hits a destroyed node (C01), the epoch window argument, a retired node is in exactly one place and freed at most once also across thread exit (C02), and seven solo flush operations free everything at quiescence. Tied to the code by trace correspondence (harness/h_ebr.cpp). and of hazard_pointer<static_strategy<3>> (record list, slot free list, acquire with publish + fence + re-validation, retire, scan with adoption of abandoned nodes, thread exit): a node protected by a validated guard is in a hazard slot and never freed, exactly-once bookkeeping across thread exit, and (partial: from the start of the scan) the flush frees everything at quiescence; tied by trace correspondence (harness/h_hp.cpp). acquire_if_equal, guard copies / moves, the dynamic strategy and the other reclaimers (hazard_eras, QSBR, NEBR/DEBRA and the other generic_epoch_based configurations, stamp_it, LFRC) are covered by the search only',
+}
 def harnesses(tier):
-    return rc.harnesses(tier)
+    return rc.harnesses(tier) + rc.MODEL_HARNESSES
 HARNESSES = harnesses('quick')
 ASSUMPTIONS = [
     'SC interleavings only in this check (fences / weak executions: C03)',
@@ -24,6 +27,7 @@ def run(ctx):
     thorough = tier == 'thorough'
     Hs = ctx['H']
     n = 1500 if thorough else 200
+    tie = rc.model_ties(ctx, do_correspondence, tie_broken_sig)
     for name, H in sorted(Hs.items()):
         K = K_of(name)
         jobs = []
@@ -40,10 +44,17 @@ def run(ctx):
         # retire+scan landing inside another thread's acquire: reader paused at every step, writer unlinks+retires
         jobs.append(({'cells': '1', 'slots': '3', 'flushes': '40'}, [['read 0', 'hold 0 0', 'deref 0'], ['repl 0', 'repl 0']], 'prefix', 60, ctx['seed'], ()))
         # a reader that keeps a guard, a thread that only enters/leaves regions (epoch advancer / scanner), and a thread that retires and exits
-        tcfg = {'cells': '1', 'slots': '3', 'flushes': '40'}
+        tcfg = {'cells': '1', 'slots': '3', 'flushes': '40'}; tcfg2 = {'cells': '2', 'slots': '3', 'flushes': '40'}
         hold = ['hold 0 0', 'deref 0', 'deref 0', 'deref 0'] if K != 1 else ['read 0', 'read 0', 'read 0']
         for prog in ([hold, ['read 0'] * 4, ['repl 0']], [hold, ['repl 0', 'repl 0'], ['read 0', 'repl 0']], [hold, ['read 0'] * 3, ['repl 0'], ['repl 0', 'read 0']]):
             jobs.append((tcfg, prog, 'phase3', 400, ctx['seed'], ()))
             jobs.append((tcfg, prog, 'pct', 3 * n, ctx['seed'] + 1, ('--depth', '4')))
+        # guards that share protection state (copies, guards taken in the same era) and are then re-targeted one by one while the
+        # object of the other one is retired: each guard must keep protecting its own object
+        if K is None or K >= 2:
+            for acq in ('holdeq 1 1', 'hold 1 1'):
+                jobs.append((tcfg2, [['hold 0 0', 'copy 0 1', 'repl 0', 'repl 1', acq, 'repl 1', 'repl 1', 'repl 1', 'deref 0', 'deref 1']], 'opseq', 1, ctx['seed'], ()))
+                jobs.append((tcfg2, [['hold 0 0', 'hold 0 1', 'repl 1', acq, 'repl 0', 'repl 1', 'repl 1', 'deref 0', 'deref 1']], 'opseq', 1, ctx['seed'], ()))
+                jobs.append((tcfg2, [['hold 0 0', 'copy 0 1', 'repl 1', acq, 'deref 0', 'deref 1', 'deref 0'], ['repl 0', 'repl 1', 'repl 0']], 'random', n, ctx['seed'], ()))
         do_search(ctx, H, jobs, name, classify=lambda c, h, f, name=name: {'harness': name})
-    return None
+    return tie
